@@ -646,7 +646,8 @@ func TestB2C06CCITT(t *testing.T) {
 		}
 		for _, f := range []FilterCCITTFax{
 			{K: 0, Columns: img.width}, {K: 0, Columns: img.width, EndOfLine: true}, {K: -1, Columns: img.width},
-			{K: 0, Columns: img.width, BlackIs1: true}, {K: -1, Columns: img.width, Rows: len(img.rows)}, {K: 4, Columns: img.width, EndOfLine: true},
+			{K: 0, Columns: img.width, BlackIs1: true}, {K: -1, Columns: img.width, Rows: len(img.rows)}, {K: 4, Columns: img.width, EndOfLine: true}, {K: 4, Columns: img.width},
+			{K: 0, Columns: img.width, EncodedByteAlign: true}, {K: -1, Columns: img.width, EncodedByteAlign: true}, {K: 0, Columns: img.width, EncodedByteAlign: true, EndOfLine: true}, {K: 4, Columns: img.width, EncodedByteAlign: true, EndOfLine: true},
 		} {
 			cases++
 			desc := fmt.Sprintf("%s %+v", img.name, f)
@@ -679,6 +680,9 @@ func TestB2C06CCITT(t *testing.T) {
 				key := "ccitt-roundtrip"
 				if f.K == 0 {
 					key = "ccitt-roundtrip-g3-1d"
+				}
+				if f.EncodedByteAlign {
+					key = "ccitt-roundtrip-bytealign"
 				}
 				t.Errorf("B2-FAIL %s %s: %d bytes, want %d, err=%v", key, desc, len(dec), len(data), err)
 			}
